@@ -34,8 +34,10 @@ def run(tier: str) -> int:
             {"Family": "mods", "MaxLen": 5, "Starts": "zero", "Sample": 0, "workers": 12},
             {"Family": "names", "MaxLen": 4, "Starts": "zero", "Sample": 0, "workers": 8},
         ]
+    # trivia around the (!x ~ ANY)* idiom in rules of every modifier, also through the optimizer (which rewrites the idiom)
+    fams.append({"Family": "optsk", "MaxLen": 4, "Starts": "zero", "Sample": 250 if not thorough else 0, "workers": 3 if not thorough else 8, "style": "min", "modes": ("interp", "gen", "opt", "optgen")})
     for f in fams:
-        replay.run_family(rep, f, "sem", modes)
+        replay.run_family(rep, f, "sem", f.get("modes", modes))
     rep.rule = (
         "grammars: r = m0{BODY}, s = m1{\"a\" ~ u}, u = m2{\"a\" ~ \"a\"?} + WHITESPACE/COMMENT per trivia configuration; BODY over operator terms to depth 2/3; "
         "inputs: all strings over {a, space, <, >} up to MaxLen; a case = (grammar, input); non-trivial = reference outcome is a successful parse"
